@@ -348,10 +348,20 @@ func (g *Gen) localByName(name string, at *ssa.BasicBlock, h *Heap) (Val, bool) 
 		}
 	}
 	if name == "idx" && at != nil {
-		for _, in := range at.Instrs {
-			if phi, ok := in.(*ssa.Phi); ok && phi.Comment == "rangeindex" {
-				// rangeindex phi holds index-1 style? In go/ssa the loop increments before use: value = phi + 1
-				return Val{T: g.val(phi), Ty: phi.Type()}, true
+		// the range index of the loop whose header is `at`, else of the innermost enclosing loop
+		cands := []*ssa.BasicBlock{at}
+		for i := len(g.loopList) - 1; i >= 0; i-- {
+			if g.loopList[i].body[at] && g.loopList[i].header != at {
+				cands = append(cands, g.loopList[i].header)
+			}
+		}
+		for _, blk := range cands {
+			for _, in := range blk.Instrs {
+				if phi, ok := in.(*ssa.Phi); ok && phi.Comment == "rangeindex" {
+					if _, done := g.vals[phi]; done || blk == at {
+						return Val{T: g.val(phi), Ty: phi.Type()}, true
+					}
+				}
 			}
 		}
 	}
@@ -854,6 +864,33 @@ func (g *Gen) enterLoop(li *loopInfo, b *ssa.BasicBlock, h *Heap, reach string) 
 		g.vc.AssumeAt(reach, App(">=", g.model.allocNow(h2), g.model.allocNow(h)), "allocation counter is monotone")
 		g.assumeMonotone(h, h2, reach, names)
 		g.assumeFreshOnly(h, h2, reach, ws)
+		// variables the loop writes only inside objects allocated by THIS FUNCTION (before or inside the loop):
+		// every object that existed at function entry is untouched by the loop
+		ws2 := &WriteSet{Vars: map[string]Sort{}}
+		freshScope = nil
+		for blk := range li.body {
+			for _, in := range blk.Instrs {
+				g.w.instrWrites(in, ws2, g)
+			}
+		}
+		if !ws2.All {
+			var ns []string
+			for n := range ws2.FreshOnly {
+				if !ws.FreshOnly[n] {
+					ns = append(ns, n)
+				}
+			}
+			sort.Strings(ns)
+			a0 := g.model.allocNow(g.entry)
+			for _, n := range ns {
+				srt := ws2.Vars[n]
+				if !strings.HasPrefix(string(srt), "(Array Int ") {
+					continue
+				}
+				a, b := h.Get(n, srt), h2.Get(n, srt)
+				g.vc.AssumeAt(reach, fmt.Sprintf("(forall ((fr Int)) (! (=> (< (root fr) %s) (= (select %s fr) (select %s fr))) :pattern ((select %s fr))))", a0, b, a, b), n+": objects that existed at function entry are untouched by the loop")
+			}
+		}
 		if ws.Yields {
 			h2 = g.havocAcquires(h2, reach, ws.Recvs)
 		}
